@@ -7,13 +7,25 @@ use sodg::Sodg;
 
 /// Run a history step by step; returns the findings of the last step (for a
 /// transition failure) or of the probes on the final state.
-pub fn rerun_hx(n: usize, cap: usize, labels: &[u8], track_returned: bool, probes: &Probes, history: &[Op], at: &str, prop: &'static str) -> Result<Vec<Finding>, String> {
-    crate::with_n!(n, N, {
-        let mut g: Sodg<N> = Sodg::empty(cap);
-        let mut m = Model::new(cap, n, track_returned);
+pub fn rerun_hx(cfg: &HxCfg, history: &[Op], at: &str, aux: Option<&Vec<Op>>) -> Result<Vec<Finding>, String> {
+    crate::with_n!(cfg.n, N, {
+        // differential oracles: the other history registers its result first
+        if let Some(a) = aux {
+            let mut g: Sodg<N> = Sodg::empty(cfg.cap);
+            let mut m = Model::new(cfg.cap, cfg.n, cfg.track_returned);
+            for op in a {
+                hx::step_nocheck(&mut g, &mut m, op)?;
+            }
+            let mut fs = vec![];
+            let mut runs = 0;
+            let mut counters = Default::default();
+            crate::probes::run_all::<N>(cfg, &g, &m, &|| a.clone(), &mut fs, &mut runs, &mut counters);
+        }
+        let mut g: Sodg<N> = Sodg::empty(cfg.cap);
+        let mut m = Model::new(cfg.cap, cfg.n, cfg.track_returned);
         let last = history.len().saturating_sub(1);
         for (i, op) in history.iter().enumerate() {
-            let (_, f) = hx::step(labels, &mut g, &mut m, op);
+            let (_, f) = hx::step(&cfg.labels, &mut g, &mut m, op);
             if at == "transition" && i == last {
                 return Ok(f);
             }
@@ -22,28 +34,62 @@ pub fn rerun_hx(n: usize, cap: usize, labels: &[u8], track_returned: bool, probe
             }
         }
         let mut fs = vec![];
-        if probes.drain {
+        if cfg.probes.drain {
             fs.extend(drain_probe(&g, &m, false));
             fs.extend(drain_probe(&g, &m, true));
         }
-        let mut cfg = HxCfg::new(prop, "replay", n, cap, &[], labels, &[]);
-        cfg.probes = probes.clone();
-        cfg.track_returned = track_returned;
         let h = history.to_vec();
         let mut runs = 0;
         let mut counters = Default::default();
-        crate::probes::run_all::<N>(&cfg, &g, &m, &|| h.clone(), &mut fs, &mut runs, &mut counters);
+        crate::inflight::begin_case(|| crate::report::hx_case_json(cfg, history, "probe", "crash-or-hang", "replay", aux));
+        crate::probes::run_all::<N>(cfg, &g, &m, &|| h.clone(), &mut fs, &mut runs, &mut counters);
         Ok(fs)
     })
+}
+
+pub fn replay_hx_violation(cfg: &HxCfg, v: &Violation) -> Result<bool, String> {
+    let mut c = cfg.clone();
+    c.shared = std::sync::Arc::default();
+    let fs = rerun_hx(&c, &v.history, &v.at, v.aux.as_ref())?;
+    Ok(fs.iter().any(|f| f.kind == v.kind))
 }
 
 fn leak(s: &str) -> &'static str {
     Box::leak(s.to_string().into_boxed_str())
 }
 
-pub fn replay_hx_violation(v: &Violation, labels: &[u8], track_returned: bool, probes: &Probes) -> Result<bool, String> {
-    let fs = rerun_hx(v.n, v.cap, labels, track_returned, probes, &v.history, &v.at, leak(&v.prop))?;
-    Ok(fs.iter().any(|f| f.kind == v.kind))
+pub fn hx_cfg_from_json(v: &Value) -> HxCfg {
+    let list = |k: &str| -> Vec<usize> { serde_json::from_value(v[k].clone()).unwrap_or_default() };
+    let list8 = |k: &str| -> Vec<u8> { serde_json::from_value(v[k].clone()).unwrap_or_default() };
+    let mut c = HxCfg::new(
+        leak(v["property"].as_str().unwrap_or("?")),
+        "replay",
+        v["n"].as_u64().unwrap_or(2) as usize,
+        v["cap"].as_u64().unwrap_or(3) as usize,
+        &list("ids"),
+        &list8("labels"),
+        &list8("data"),
+    );
+    let p = &v["probes"];
+    c.probes = Probes {
+        drain: p["drain"].as_bool().unwrap_or(false),
+        clone: p["clone"].as_bool().unwrap_or(false),
+        reload: p["reload"].as_bool().unwrap_or(false),
+        cuts: p["cuts"].as_bool().unwrap_or(false),
+        slice: p["slice"].as_bool().unwrap_or(false),
+        exports: p["exports"].as_bool().unwrap_or(false),
+        texts: p["texts"].as_bool().unwrap_or(false),
+        lockstep: serde_json::from_value(p["lockstep"].clone()).unwrap_or_default(),
+        rerun: p["rerun"].as_u64().unwrap_or(0) as usize,
+    };
+    let o = &v["ops"];
+    c.next_id = o["next_id"].as_bool().unwrap_or(true);
+    c.add_next = o["add_next"].as_bool().unwrap_or(true);
+    c.clone_swap = o["clone_swap"].as_bool().unwrap_or(false);
+    c.reload_swap = o["reload_swap"].as_bool().unwrap_or(false);
+    c.merges = serde_json::from_value(o["merges"].clone()).unwrap_or_default();
+    c.track_returned = v["track_returned"].as_bool().unwrap_or(false);
+    c
 }
 
 /// `vx replay <file>`: exit 1 if the recorded failure reproduces, 0 if not.
@@ -62,36 +108,19 @@ pub fn replay_file(path: &str) -> i32 {
             return 2;
         }
     };
+    crate::inflight::start_watchdog();
     let engine = v["engine"].as_str().unwrap_or("");
     match engine {
         "hx" => {
             let history: Vec<Op> = serde_json::from_value(v["history"].clone()).expect("history");
-            let labels: Vec<u8> = serde_json::from_value(v["labels"].clone()).expect("labels");
-            let p = &v["probes"];
-            let probes = Probes {
-                drain: p["drain"].as_bool().unwrap_or(false),
-                clone: p["clone"].as_bool().unwrap_or(false),
-                reload: p["reload"].as_bool().unwrap_or(false),
-                cuts: p["cuts"].as_bool().unwrap_or(false),
-                slice: p["slice"].as_bool().unwrap_or(false),
-                exports: p["exports"].as_bool().unwrap_or(false),
-                texts: p["texts"].as_bool().unwrap_or(false),
-                lockstep: serde_json::from_value(p["lockstep"].clone()).unwrap_or_default(),
-                rerun: p["rerun"].as_u64().unwrap_or(0) as usize,
-            };
-            let prop = leak(v["property"].as_str().unwrap_or("?"));
+            let aux: Option<Vec<Op>> = serde_json::from_value(v["aux_history"].clone()).ok().flatten();
+            let cfg = hx_cfg_from_json(&v);
             let kind = v["kind"].as_str().unwrap_or("");
-            println!("replaying on the real code: {}", crate::model::hist_text(&history));
-            match rerun_hx(
-                v["n"].as_u64().unwrap() as usize,
-                v["cap"].as_u64().unwrap() as usize,
-                &labels,
-                v["track_returned"].as_bool().unwrap_or(false),
-                &probes,
-                &history,
-                v["at"].as_str().unwrap_or("transition"),
-                prop,
-            ) {
+            println!("replaying on the real code (Sodg<{}>, capacity {}): {}", cfg.n, cfg.cap, crate::model::hist_text(&history));
+            if kind == "crash-or-hang" {
+                println!("(the recorded failure is a crash or a hang: if this command dies or is stopped by the watchdog, it has reproduced)");
+            }
+            match rerun_hx(&cfg, &history, v["at"].as_str().unwrap_or("transition"), aux.as_ref()) {
                 Err(e) => {
                     println!("replay: {e}");
                     2
@@ -101,10 +130,10 @@ pub fn replay_file(path: &str) -> i32 {
                         println!("  observed [{}] tags {:?}: {}", f.kind, f.tags, f.detail);
                     }
                     if fs.iter().any(|f| f.kind == kind) {
-                        println!("REPRODUCED property={prop} kind={kind}");
+                        println!("REPRODUCED property={} kind={kind}", cfg.prop);
                         1
                     } else {
-                        println!("NOT REPRODUCED property={prop} kind={kind}");
+                        println!("NOT REPRODUCED property={} kind={kind}", cfg.prop);
                         0
                     }
                 }
